@@ -13,6 +13,7 @@ import TantivyModel.Proofs.Columnar.DictStack
 import TantivyModel.Proofs.Columnar.DictKept
 import TantivyModel.Proofs.Columnar.ColumnFile
 import TantivyModel.Proofs.Columnar.FileEndToEnd
+import TantivyModel.Proofs.Columnar.StackFile
 /-!
 # C08 — Fast fields return exactly the values that were indexed
 
@@ -419,6 +420,24 @@ theorem C08_merge_file_roundtrip (startsCodec valCodec : Nat) (card : Card) (ord
       (mergeShuffledAs card order ins).2 = some bytes) :
     ∃ f, openColumnFile bytes = some f ∧ f.read = mergeSpec order (ins.map MergeInput.read) :=
   merge_file_roundtrip startsCodec valCodec card order ins hvalid hfit hv hn hvals bytes hibl henc
+
+/-- stacked merge → bytes → rows: inputs canonical or missing; the column file serialized from the
+stacked (index, values) opens and reads back as the concatenation of what a reader sees of each
+input (a stacked merge writes `encodeAs` of the concatenated rows: `mergeStacked_eq_encodeAs`). -/
+theorem C08_merge_stack_file_roundtrip (startsCodec valCodec : Nat) (ins : List (MergeInput Nat))
+    (h : ∀ m ∈ ins, CanonOrMissing m)
+    (hv : ∀ v ∈ (mergeStacked ins).2, v < 2 ^ 64)
+    (hn : (stackSpec (ins.map MergeInput.read)).length ≤ 65535 * 65536)
+    (hvals : (stackSpec (ins.map MergeInput.read)).flatten.length < 2 ^ 32) (bytes : Bytes)
+    (hibl : ∀ ib, indexEnc startsCodec (mergeStacked ins).1 = some ib → ib.length < 2 ^ 32)
+    (henc : columnFileEnc startsCodec valCodec (mergeStacked ins).1 (mergeStacked ins).2 = some bytes) :
+    ∃ f, openColumnFile bytes = some f ∧ f.read = stackSpec (ins.map MergeInput.read) :=
+  stack_file_roundtrip startsCodec valCodec ins h hv hn hvals bytes hibl henc
+
+example : ((columnFileEnc 0 0
+      (mergeStacked [⟨1, some (encodeAs .full [[1]])⟩, ⟨2, none⟩, (⟨1, some (encodeAs .full [[5]])⟩ : MergeInput Nat)]).1
+      (mergeStacked [⟨1, some (encodeAs .full [[1]])⟩, ⟨2, none⟩, (⟨1, some (encodeAs .full [[5]])⟩ : MergeInput Nat)]).2).bind
+      openColumnFile).map ColFile.read = some [[1], [], [], [5]] := by decide
 
 /-- Str / Bytes column file (`open_column_bytes`): `[dictionary][term ordinal column file][dictionary
 length u32 LE]` splits back into the dictionary bytes and the ordinal column, which opens as above
